@@ -282,7 +282,7 @@ def gen_case(seed, run, tier):
             elif kind in ("participation", "effect", "index"):
                 op["key"] = rw.choice(keys + ["Zz"])
             elif kind == "array":
-                op["variant"] = rw.choice(["dict", "dict", "list", "short", "missing_key", "unk_key", "roundtrip"])
+                op["variant"] = rw.choice(["dict", "dict", "list", "short", "missing_key", "unk_key", "unk_key_sparse", "roundtrip"])
                 op["vals"] = [rw.randint(0, 40) for _ in keys]
             elif kind == "varied":
                 op["vals"] = [rw.randint(0, 40) for _ in keys]
@@ -823,7 +823,7 @@ def execute(case):
             vals = _defaulting(dict(zip(case["keys"], op["vals"])), 1)
             var = op["variant"]
             want = [float(vals[k]) for k in subs]
-            exp_raise = var in ("short", "unk_key") or (var == "missing_key" and len(subs) >= 1)
+            exp_raise = var in ("short", "unk_key", "unk_key_sparse") or (var == "missing_key" and len(subs) >= 1)
             try:
                 if var in ("dict", "roundtrip"):
                     # keys deliberately NOT in substance order
@@ -834,6 +834,14 @@ def execute(case):
                     arr = obj.as_per_substance_array(want + [1.0])
                 elif var == "missing_key":
                     arr = obj.as_per_substance_array({k: vals[k] for k in subs[1:]})
+                elif var == "unk_key_sparse":
+                    from collections import defaultdict
+
+                    d = defaultdict(float)  # sparse mapping, missing substances default to 0
+                    for k in subs[: max(0, len(subs) - 2)]:
+                        d[k] = vals[k]
+                    d["Zz"] = 1.0  # a misspelled key
+                    arr = obj.as_per_substance_array(d, raise_on_unk=True)
                 else:  # unk_key
                     d = {k: vals[k] for k in subs}
                     d["Zz"] = 1
